@@ -196,5 +196,22 @@ pub fn main(args: &[String]) {
             }
         }
     }
+    // JS: option fields of structs travelling through memory, payloads including zero and false (generated .mjs in Node
+    // against rustc's bytes, and against a real wasm32 module)
+    {
+        use crate::c08::{Case, F};
+        let p = |n: &'static str, s: usize| F::Opt(Box::new(F::Prim(n, s, s)));
+        let mut cases = vec![];
+        for out in [true, false] {
+            cases.push(Case { structs: vec![vec![p("u8", 1), p("bool", 1), p("i64", 8), p("f64", 8)]], discs: (0, 1), out });
+            cases.push(Case { structs: vec![vec![p("u32", 4), F::Opt(Box::new(F::Enum)), p("i16", 2), p("f32", 4), F::Prim("u8", 1, 1)]], discs: (0, 3), out });
+            cases.push(Case { structs: vec![vec![F::Prim("u16", 2, 2), F::Prim("u8", 1, 1)], vec![F::Opt(Box::new(F::Struct(0))), p("u64", 8), p("DiplomatChar", 4)]], discs: (0, 1), out });
+        }
+        let refs: Vec<&Case> = cases.iter().collect();
+        for salt in 0..6u64 {
+            crate::jsexec::run(&refs, a.seed.wrapping_mul(131).wrapping_add(salt), false, &mut rep);
+        }
+        crate::jsexec::run(&refs, a.seed, true, &mut rep);
+    }
     rep.print();
 }
